@@ -392,6 +392,9 @@ def run_c09(ctx):
         ok = dargs is not None and isinstance(dargs[0], Arr) and scalar_of(dargs[0].at("a", "b"), "arg") == leaf("Lmat", "a", "b")
         ctx.ob("C09-c", "u and L⁻¹ come from the decomposition of that matrix", ok, "sampling::sample", "decompose-receives-l-matrix")
     guarded_clause(ctx, "C09-c", w.roles["lmatrix"].path, "l-matrix", c)
+    # d: the `inverse` that enters V is the inverse of that matrix (Cholesky recurrence, nilpotent series, assembly, product wiring)
+    run_c15e(ctx, "C09-d")
+    matrix_wiring_clause(ctx, "C09-d", "L⁻¹ in V")
 
 
 # ---------------------------------------------------------------------------------------------------
@@ -431,6 +434,19 @@ def run_c10(ctx):
     guarded_clause(ctx, "C10-b", w.roles["shift"].path, "shift", b)
     ctx.rule("C10-c", "the two decomposition fields the momentum map consumes are consistent: inverse = Q⁻ᵀ·(Q⁻ᵀ)ᵀ, so the covariance (v/2λ)·Q⁻ᵀQ⁻¹ is (v/2λ)·L⁻¹")
     matrix_wiring_clause(ctx, "C10-c", "covariance")
+    run_c15e(ctx, "C10-d")
+    # e: the u vectors and the v that enter the map are the statement's (restated from C09)
+    ctx.rule("C10-e", "the centre uses u_l.c = Σ_e x_e·s[e,l]·p_e.c and the scale uses v = Σ x(m²+p²) − uᵀL⁻¹u")
+
+    def e_():
+        e = fresh("e")
+        want = ssum(leaf("x", e) * leaf("sig", e, "l") * leaf("p", e, "c"), e, "E")
+        compare(ctx, "C10-e", "u_l.c == Σ_e x_e s[e,l] p_e.c", comp(w.rec["uvec"].at("l"), "c"), want, w.roles["uvec"].path, "u-vector", {"l": "L", "c": "D"})
+        e2, c, l1, l2, c2 = fresh("e"), fresh("c"), fresh("l"), fresh("l"), fresh("c")
+        masses = ssum(leaf("x", e2) * (mhat(e2) * mhat(e2) + ssum(leaf("p", e2, c) * leaf("p", e2, c), c, "D")), e2, "E")
+        cross = ssum(ssum(ssum(leaf("u", l1, c2) * leaf("u", l2, c2), c2, "D") * leaf("Linv", l1, l2), l1, "L"), l2, "L")
+        compare(ctx, "C10-e", "v == Σ x(m²+p²) − uᵀL⁻¹u", scalar_of(w.rec["vpoly"], "v"), masses - cross, w.roles["vpoly"].path, "v-polynomial", {})
+    guarded_clause(ctx, "C10-e", w.roles["vpoly"].path, "u-and-v", e_)
 
 
 # ---------------------------------------------------------------------------------------------------
@@ -675,19 +691,19 @@ def cholesky_clause(ctx, RID):
     guarded_clause(ctx, RID, fn, "cholesky", chol)
 
 
-def run_c15e(ctx):
-    ctx.rule("C15-e", "the factor loop is the Cholesky–Banachiewicz recurrence q[i,i] = (A[i,i] − Σ_{k<i} q[i,k]²)^½, q[j,i] = (A[i,j] − Σ_{k<i} q[i,k]·q[j,k])/q[i,i] (j>i), "
+def run_c15e(ctx, RID="C15-e"):
+    ctx.rule(RID, "the factor loop is the Cholesky–Banachiewicz recurrence q[i,i] = (A[i,i] − Σ_{k<i} q[i,k]²)^½, q[j,i] = (A[i,j] − Σ_{k<i} q[i,k]·q[j,k])/q[i,i] (j>i), "
                       "every read refers to a column written in an earlier iteration; N = D⁻¹Q − I strictly lower; Q⁻¹ = (I + Σ_{t≥1} (−N)^t)·D⁻¹ with the powers "
                       "N¹..N^(dim−1) built by repeated multiplication and alternating signs")
     from ..vals import Vals
     from .. import cfg
     w = matrix_world(ctx)
     if not w.ok:
-        return ctx.ob("C15-e", "decompose_for_tropical summarised", False, "matrix::SquareMatrix::decompose_for_tropical", "kernel-undecided", detail=w.error)
+        return ctx.ob(RID, "decompose_for_tropical summarised", False, "matrix::SquareMatrix::decompose_for_tropical", "kernel-undecided", detail=w.error)
     fn = w.dec.path
     I = w.I
 
-    cholesky_clause(ctx, "C15-e")
+    cholesky_clause(ctx, RID)
 
     def nmat():
         names = single_matrix_leaf(scalar_of(w.result.fields["q_transposed"].at("a", "b"), "q_transposed"))
@@ -699,7 +715,7 @@ def run_c15e(ctx):
             raise Undecided("series-sum matrix not identified in q_transposed_inverse (%s)" % sorted(snames))
         Sn = sorted(snames)[0]
         want = (leaf(Sn, "b", "a") + Expr.const(1).guarded([("=", "a", "b")])) * leaf(Q, "a", "a").inv()
-        compare(ctx, "C15-e", "Q⁻¹[r,c] == (S[r,c] + [r=c])/q[c,c]  (S = `%s`, the series sum)" % Sn, qti, want, fn, "inverse-assembly", {"a": "n", "b": "n"}, ())
+        compare(ctx, RID, "Q⁻¹[r,c] == (S[r,c] + [r=c])/q[c,c]  (S = `%s`, the series sum)" % Sn, qti, want, fn, "inverse-assembly", {"a": "n", "b": "n"}, ())
         # N matrix: the first element pushed to the power list
         nm = None
         for env in I.block_envs:
@@ -717,10 +733,10 @@ def run_c15e(ctx):
                         ok, _why = equal_modulo_order(e_, want_n.guarded([("<=", 1, "r")]), {"r": "n", "c": "n"}, set())
                     if ok:
                         nm = nmn
-        ctx.ob("C15-e", "a local holds N[r,c] = [c<r]·q[r,c]/q[r,r] (strictly lower part of D⁻¹Q) — `%s`" % nm, nm is not None, fn, "n-matrix")
+        ctx.ob(RID, "a local holds N[r,c] = [c<r]·q[r,c]/q[r,r] (strictly lower part of D⁻¹Q) — `%s`" % nm, nm is not None, fn, "n-matrix")
         w.n_name = nm
         w.s_name = Sn
-    guarded_clause(ctx, "C15-e", fn, "n-matrix", nmat)
+    guarded_clause(ctx, RID, fn, "n-matrix", nmat)
 
     # series shape on MIR
     body = w.dec
@@ -783,7 +799,7 @@ def run_c15e(ctx):
                             rng_ok = bool(dv) and st_["k"] == "const" and st_.get("int") == "1"
         ok_shape = ok_shape and rng_ok
         det += "; loop range 1..dim-1: %s" % rng_ok
-    ctx.ob("C15-e", "powers of N: list starts with N, then `last·first` is pushed for t in 1..dim−1 (N¹..N^(dim−1))", ok_shape, fn, "nilpotent-powers", detail=det)
+    ctx.ob(RID, "powers of N: list starts with N, then `last·first` is pushed for t in 1..dim−1 (N¹..N^(dim−1))", ok_shape, fn, "nilpotent-powers", detail=det)
     # alternating fold: closure with i % 2 == 0 -> acc - mat, else acc + mat
     alt_ok = False
     det2 = "no fold closure with a parity test found"
@@ -804,7 +820,7 @@ def run_c15e(ctx):
                     sub_on_even = subs[0][0] in cb.reachable_from(te, avoid=frozenset([fe])) and adds[0][0] in cb.reachable_from(fe, avoid=frozenset([te]))
                     alt_ok = bool(zero and is_mod2 and sub_on_even)
                     det2 = "parity test %s, Sub on even index %s" % (is_mod2 and zero, sub_on_even)
-    ctx.ob("C15-e", "series sum: fold over the powers with −N^(t+1) for even t and + for odd t, starting from zero", alt_ok, fn, "alternating-series", detail=det2)
+    ctx.ob(RID, "series sum: fold over the powers with −N^(t+1) for even t and + for odd t, starting from zero", alt_ok, fn, "alternating-series", detail=det2)
 
 
 def Root_strip(r):
